@@ -249,8 +249,8 @@ def _sched_codes():
 def harnesses(tier):
     items = dict(W.items())
     H = {
-        "H1 parse||parse (overlapping alphabets)": (["parse|ClH/(1-2)", "parse|CH4/(1-5)(2-5)(3-5)(4-5)/(1:mass=2)(5:mass=13,rad=2)"], "dfa-cold"),
-        "H2 failing parse||valid parse": (["parse|C2H6O/(1-7)(2-7)(3-7)(4-8)(5-8)(6-9)(7-8)(8-9)x", "parse|ClH/(1-2)"], "dfa-cold"),
+        "H1 parse||parse (overlapping alphabets)": (["parse|ClH/(1-2)", "parse|HHeHf//(3:mass=180)"], "dfa-cold"),
+        "H2 failing parse||valid parse": (["parse|C/(1 -2)", "parse|ClH/(1-2)"], "dfa-cold"),
         "H4 parse||canonicalize+serialize": (["parse|ClH/(1-2)", "tucan|v3:single"], "dfa-cold"),
         "H5 tucan||tucan": (["tucan|v3:salt", "tucan|v2:ethanol-d"], "dfa-cold"),
         "H6 write||write": (["write-canon|v3:salt", "write|v3:single"], "dfa-cold"),
